@@ -76,6 +76,13 @@ type scenario struct {
 	// which intermediate revision ever controlled an object - its plain owner entries - and whether
 	// an intermediate revision recorded Succeeded are records of the history, not of the outcome.
 	LooseHistory bool
+	// PhaseDrift: additionally delete ObjectSetPhase objects as drift
+	PhaseDrift bool
+	// Later, when set, is a change of the desired state the user makes at the start of round
+	// LaterRound in every run (so that disturbances before it are repaired first and the
+	// change then meets the repaired state)
+	Later      func(w *world.World)
+	LaterRound int
 }
 
 func ready(w *world.World) {
@@ -96,6 +103,16 @@ var driftKinds = []string{"delete", "modify-spec", "drop-cache-label", "lower-re
 func applyDrift(w *world.World, sc scenario, d string) bool {
 	kind, idx, _ := strings.Cut(d, "#")
 	targets := sc.DriftTargets(w)
+	if kind == "delete-phase-object" {
+		// the t-th ObjectSetPhase that exists at that moment (a managed object of the ObjectSet)
+		targets = nil
+		for _, k := range w.S.SortedKeys() {
+			if k.Kind == "ObjectSetPhase" && k.Group == "package-operator.run" {
+				targets = append(targets, k)
+			}
+		}
+		kind = "delete"
+	}
 	var n int
 	fmt.Sscan(idx, &n)
 	if n >= len(targets) {
@@ -156,6 +173,10 @@ func execute(sc scenario, in *injection, keepTrace bool) runResult {
 			pending = pending.Next
 			disturbed = true
 		}
+		if sc.Later != nil && r == sc.LaterRound {
+			sc.Later(w)
+			disturbed = true
+		}
 		before := w.Canon()
 		var shape []passInfo
 		for pi, ps := range osw.RoundPasses(w) {
@@ -180,7 +201,7 @@ func execute(sc scenario, in *injection, keepTrace bool) runResult {
 		w.GC()
 		res.Rounds = r + 1
 		// quiescent = a complete undisturbed round changed nothing
-		if pending == nil && !disturbed && w.Canon() == before {
+		if pending == nil && !disturbed && w.Canon() == before && (sc.Later == nil || r > sc.LaterRound) {
 			res.Quiescent = true
 			break
 		}
@@ -319,7 +340,7 @@ func scenarios() []scenario {
 			w := osw.NewWorld()
 			w.MustCreate(world.NewObjectSet("r1", osw.PhaseSpecs(osw.B1(2, 0b10), 1), world.StdProbes()))
 			return w
-		}, DriftTargets: testObjects},
+		}, DriftTargets: testObjects, PhaseDrift: true},
 		{Name: "S2 ObjectDeployment T1{a,b} -> T2{a,c}", Init: func() *world.World {
 			w := osw.NewWorld()
 			w.MustCreate(osw.NewOD("d", osw.Template(osw.OnePhase("a", "b"), 1), nil))
@@ -344,7 +365,19 @@ func scenarios() []scenario {
 			settle(w)
 			osw.SetODTemplate(w, "d", osw.Template(t2, 2))
 			return w
-		}, DriftTargets: testObjects},
+		}, DriftTargets: testObjects, PhaseDrift: true},
+		{Name: "S9 ObjectDeployment T1 with a delegated phase, disturbed, then edited to T2 six rounds later", Init: func() *world.World {
+			w := osw.NewWorld()
+			t1 := osw.OnePhase("a", "b")
+			t1[0].Delegated = true
+			w.MustCreate(osw.NewOD("d", osw.Template(t1, 1), nil))
+			settle(w)
+			return w
+		}, DriftTargets: testObjects, PhaseDrift: true, LaterRound: 6, Later: func(w *world.World) {
+			t2 := osw.OnePhase("a", "c")
+			t2[0].Delegated = true
+			osw.SetODTemplate(w, "d", osw.Template(t2, 2))
+		}},
 		{Name: "S4 teardown of a rolled-out ObjectSet", Init: func() *world.World {
 			w := osw.NewWorld()
 			w.MustCreate(world.NewObjectSet("r1", osw.PhaseSpecs(osw.B1(2, 0), 1), world.StdProbes()))
@@ -411,7 +444,7 @@ func identityOf(sc scenario, in *injection, msg string) string {
 
 func run(o checks.Opts) *report.Report {
 	rep := report.New("C10", "faults")
-	rep.Rule = "per scenario: reference run under the fair schedule (rounds of all reconciles in canonical order, workloads becoming ready, garbage collector) to quiescence gives the projected end state E*; then for EVERY request of EVERY pass of the reference run x {error before effect, effect with lost response, crash + restart with empty dynamic cache} and for every third-party drift {delete, modify spec, strip owners, drop cache label, lower revision} x managed object x round: inject, continue fairly to quiescence (horizon 50 rounds), require projection == E* and a further round with zero state-changing requests; thorough adds pairs of faults; distinct = (scenario, rounds needed)"
+	rep.Rule = "per scenario: reference run under the fair schedule (rounds of all reconciles in canonical order, workloads becoming ready, garbage collector) to quiescence gives the projected end state E*; then for EVERY request of EVERY pass of the reference run x {error before effect, effect with lost response, crash + restart with empty dynamic cache} and for every third-party drift {delete, modify spec, strip owners, drop cache label, lower revision} x managed object x round (for scenarios with delegated phases also deletion of each ObjectSetPhase object; scenario S9 changes the desired state six rounds in, so that earlier disturbances are repaired first and the change meets the repaired state): inject, continue fairly to quiescence (horizon 50 rounds), require projection == E* and a further round with zero state-changing requests; thorough adds pairs of faults; distinct = (scenario, rounds needed)"
 	scs := scenarios()
 	rep.Bounds["scenarios"] = len(scs)
 	n := 0
@@ -441,6 +474,11 @@ func run(o checks.Opts) *report.Report {
 			for t := 0; t < nt+1; t++ {
 				for _, dk := range driftKinds {
 					injs = append(injs, &injection{Round: r, Drift: fmt.Sprintf("%s#%d", dk, t)})
+				}
+			}
+			if sc.PhaseDrift {
+				for t := 0; t < 2; t++ {
+					injs = append(injs, &injection{Round: r, Drift: fmt.Sprintf("delete-phase-object#%d", t)})
 				}
 			}
 		}
